@@ -268,7 +268,7 @@ DoAppend(n) ==
 \* state by ReadsOK): for exhaustive runs one representative per contiguous range of chunks is enough
 ReadOffs == IF SimMode THEN {disc, (disc + Len(log)) \div 2, Max(disc, Len(log) - 1), Len(log)}
             ELSE {disc} \cup {k * F : k \in (disc \div F + 1)..(Len(log) \div F)}
-ReadLens(off) == IF SimMode THEN {1, F, Len(log) + 1 - off}
+ReadLens(off) == IF SimMode THEN {1, Min(F, Len(log) + RB + 1 - off), Len(log) + 1 - off}
                  ELSE {1} \cup {j * F + 1 : j \in 1..((Len(log) - off) \div F)}
 DoRead(off, n) ==
   /\ Enabled
